@@ -63,8 +63,8 @@ func TestMain(m *testing.M) {
 		evid.Spec{Name: "TestPropSmallTrees", Kind: "rapid", Quick: 8000, Thorough: 400000, QuickShards: 4, ThoroughShards: 16},
 		evid.Spec{Name: "TestPropCLI", Kind: "rapid", Quick: 160, Thorough: 3200, QuickShards: 8, ThoroughShards: 16, TimeoutS: 3000},
 		evid.Spec{Name: "TestExhaustiveRedeclared", Kind: "plain", QuickShards: 8, ThoroughShards: 16, TimeoutS: 3000},
-		evid.Spec{Name: "TestPropRedeclared", Kind: "rapid", Quick: 4000, Thorough: 160000, QuickShards: 8, ThoroughShards: 16, TimeoutS: 3000},
-		evid.Spec{Name: "TestPropHistory", Kind: "rapid", Quick: 4000, Thorough: 160000, QuickShards: 4, ThoroughShards: 16, TimeoutS: 3000},
+		evid.Spec{Name: "TestPropRedeclared", Kind: "rapid", Quick: 4000, Thorough: 80000, QuickShards: 8, ThoroughShards: 16, TimeoutS: 3000},
+		evid.Spec{Name: "TestPropHistory", Kind: "rapid", Quick: 4000, Thorough: 80000, QuickShards: 4, ThoroughShards: 16, TimeoutS: 3000},
 		evid.Spec{Name: "TestPropFind", Kind: "rapid", Quick: 160, Thorough: 3200, QuickShards: 8, ThoroughShards: 16, TimeoutS: 3000},
 	)
 	evid.Commands("obigrep", "obiannotate", "obifind", "obirefidx")
